@@ -44,7 +44,11 @@ DefaultSegs == <<
   [stem |-> "chart",           num |-> 2147483647, exts |-> <<"xml">>],
   [stem |-> "notesSlide",      num |-> 12,  exts |-> <<"xml">>],
   [stem |-> "image",           num |-> 1,   exts |-> <<"", "png">>],      \* "image1..png": two consecutive periods INSIDE a segment (no dot segment)
-  [stem |-> "..a",             num |-> -1,  exts |-> <<"xml">>]            \* "..a.xml": a segment that merely begins with two periods
+  [stem |-> "..a",             num |-> -1,  exts |-> <<"xml">>],           \* "..a.xml": a segment that merely begins with two periods
+  \* names outside ASCII (TLC strings are ASCII: {U+XXXX} is decoded by the driver's renderer, the observed names are matched as rendered):
+  \* the same word spelled with a combining accent and precomposed - two DIFFERENT names, each kept as spelled
+  [stem |-> "cafe{U+0301}",    num |-> -1,  exts |-> <<"png">>],
+  [stem |-> "caf{U+00E9}",     num |-> -1,  exts |-> <<"png">>]     \* (no number: the index is defined for <ASCII letters><digits> stems)
 >>
 
 SegIds(n) == 1..n
